@@ -9,6 +9,9 @@ vars == <<sh, l, j, bad>>
 Loads(ev) == SelectSeq(ev.progs, IsLoad)
 Codes(ev) == SelectSeq(ev.sects, IsCode)
 AsBlocks(out) == [i \in 1..Len(out) |-> [addr |-> out[i].addr, bytes |-> out[i].bytes]]
+\* empty blocks hold no byte: memory equality is about content (two empty segments at one address are one or two
+\* empty blocks, indistinguishable by any lookup)
+NonEmpty(bs) == SelectSeq(bs, LAMBDA b : Len(b.bytes) > 0)
 SegBlocks(ev) == [i \in 1..Len(Loads(ev)) |-> SegBlock(Loads(ev)[i])]
 SecBlocks(ev) == [i \in 1..Len(Codes(ev)) |-> SecBlock(Codes(ev)[i])]
 
@@ -22,7 +25,8 @@ Judge(ev, st) ==
     ELSE IF ~ev.memerr /\ \E i \in 1..Len(Loads(ev)) : Ltu(Loads(ev)[i].memsz, FromNat(Len(Loads(ev)[i].content), 3), 8)
       THEN Fail("memsz", "error (memory size below file size)", ev.mem, <<>>)
     ELSE IF ~ev.memerr /\ AnyOverlap(SegBlocks(ev)) THEN Fail("segoverlap", "overlapping segments rejected", ev.mem, <<>>)
-    ELSE IF ~ev.memerr /\ AsBlocks(ev.mem) # SortedBlocks(SegBlocks(ev)) THEN Fail("memory", SortedBlocks(SegBlocks(ev)), ev.mem, <<>>)
+    ELSE IF ~ev.memerr /\ NonEmpty(AsBlocks(ev.mem)) # SortedBlocks(NonEmpty(SegBlocks(ev)))
+      THEN Fail("memory", SortedBlocks(NonEmpty(SegBlocks(ev))), ev.mem, <<>>)
     \* code image
     ELSE IF ~ev.codeerr /\ AnyOverlap(SecBlocks(ev)) THEN Fail("secoverlap", "overlapping sections rejected", ev.code, <<>>)
     ELSE IF ~ev.codeerr /\ AsBlocks(ev.code) # SortedBlocks(SecBlocks(ev)) THEN Fail("code", SortedBlocks(SecBlocks(ev)), ev.code, <<>>)
